@@ -8,7 +8,7 @@ from ..ctx import Ctx
 from ..engine import fresh_int, SymBool, SymInt
 from ..symstr import model_value
 
-PROBE = "[C][=C][#N][C][Branch1][C][F]"
+PROBE = "[C][#C]"
 NAMES = ["default", "octet_rule", "hypervalent", "foo"]
 
 
@@ -19,15 +19,15 @@ def make_api(ctx):
                     ctx.exc.DecoderError, ctx.exc.EncoderError)
 
 
-def gen_op(i, menu):
+def gen_op(i, menu, invalid=None):
     k = menu[int(fresh_int("op%d" % i, 0, len(menu) - 1))]
     if k == "set_preset":
         return {"op": k, "name": NAMES[int(fresh_int("pn%d" % i, 0, 3))]}
     if k == "set_dict":
-        t = {"C": fresh_int("vC%d" % i, -1, 9), "N+1": fresh_int("vN%d" % i, -1, 9), "?": fresh_int("vq%d" % i, -1, 9)}
+        t = {"C": fresh_int("vC%d" % i, -1, 9), "N+1": 2, "?": fresh_int("vq%d" % i, -1, 9)}
         return {"op": k, "table": t}
     if k == "set_invalid":
-        w = sorted(hist.INVALID_DICTS)
+        w = invalid or sorted(hist.INVALID_DICTS)
         return {"op": k, "which": w[int(fresh_int("iv%d" % i, 0, len(w) - 1))]}
     if k == "set_wrongtype":
         w = sorted(hist.WRONG_TYPES)
@@ -68,13 +68,13 @@ def run(rep, tier, seed, budget):
     FULL = ["set_preset", "set_dict", "set_invalid", "set_wrongtype", "get_mutate", "preset_mutate",
             "alphabet_mutate", "mutate_passed"]
 
-    def level(K, menu):
+    def level(K, menu, invalid=None):
         def path(eng, col):
             ctx.reset()
             st = hist.State(ctx._presets0)
             ops = []
             for i in range(K):
-                op = gen_op(i, menu)
+                op = gen_op(i, menu, invalid)
                 ops.append(op)
                 before = dech.run_decoder(ctx, PROBE)
                 cur_before = st.cur
@@ -84,25 +84,28 @@ def run(rep, tier, seed, budget):
                     after = dech.run_decoder(ctx, PROBE)
                     if (before[0], str(before[1])) != (after[0], str(after[1])):
                         st.problem("decoder(%r) changed across %s, which must leave the table unchanged" % (PROBE, op["op"]))
-                if st.problems:
+                if any(c is True for _, c in st.problems):
                     break
             col.nontrivial(tuple(o["op"] + str(o.get("name", o.get("which", ""))) for o in ops))
             col.sample([o["op"] for o in ops])
             judge(eng, col, st, ops, "config_history")
         return path
 
-    plan = [(1, FULL), (2, FULL)] + ([(3, FULL)] if not quick else [(3, ["set_preset", "set_dict", "set_invalid", "get_mutate", "alphabet_mutate", "mutate_passed"])])
-    if not quick:
-        plan.append((4, ["set_dict", "set_invalid", "get_mutate", "alphabet_mutate", "mutate_passed", "preset_mutate"]))
-    for K, menu in plan:
+    import random
+    rnd = random.Random(seed)
+    few = sorted(rnd.sample(sorted(hist.INVALID_DICTS), 2) + ["valid_then_invalid"])
+    SMALL = ["set_dict", "set_invalid", "get_mutate", "alphabet_mutate", "mutate_passed"]
+    plan = [(1, FULL, None), (2, FULL, None)]
+    plan += [(3, SMALL, few)] if quick else [(3, FULL, None), (4, SMALL, few)]
+    for K, menu, invalid in plan:
         left = t_end - time.time()
         name = "histories of %d calls over %d operation kinds, observation after every call" % (K, len(menu))
         if left < 5:
             rep.parts.append({"name": name, "complete": False, "paths": 0, "bounds": {"K": K}, "claim": "not started (time budget)"})
             continue
-        res = driver.explore_parallel(level(K, menu), left * 0.8)
-        rep.add_part(name, res, {"K": K, "operations": menu, "dict_values": "C, N+1, ? free in -1..9",
-                                 "invalid_tables": sorted(hist.INVALID_DICTS), "wrong_types": sorted(hist.WRONG_TYPES)})
-    rep.assumptions += ["histories of at most K calls from the listed operation kinds; custom tables have keys C, N+1, ? with free values in -1..9 (negative => the real setter must reject)",
+        res = driver.explore_parallel(level(K, menu, invalid), left * 0.8)
+        rep.add_part(name, res, {"K": K, "operations": menu, "dict_values": "C and ? free in -1..9, N+1 = 2",
+                                 "invalid_tables": invalid or sorted(hist.INVALID_DICTS), "wrong_types": sorted(hist.WRONG_TYPES)})
+    rep.assumptions += ["histories of at most K calls from the listed operation kinds; custom tables have keys C, ? with free values in -1..9 and N+1 = 2 (negative => the real setter must reject)",
                         "observation after every call: get == last accepted table (solver-decided over the values), presets == import-time copies, alphabet derivable from the current table, decoder probe unchanged when the table is unchanged"]
     return ctx.stubs
